@@ -804,11 +804,23 @@ CHEATS = ["assume(", "admit(", "external_body", "assume_specification", "externa
 
 
 def scan_assumptions(text):
+    """every assume / admit / external_body / assume_specification / uninterp / axiom in the emitted
+    file; an `external_body` attribute is reported with the item it is attached to (the next
+    `fn` / `struct` line), so that the evidence names the assumed contract, not the attribute"""
     found = []
-    for i, l in enumerate(text.split("\n"), 1):
+    lines = text.split("\n")
+    for i, l in enumerate(lines, 1):
+        if l.strip().startswith("//"):
+            continue
         for c in CHEATS:
             if c in l:
-                found.append((i, c, l.strip()))
+                shown = l.strip()
+                if c == "external_body" and "fn " not in l and "struct " not in l:
+                    for k in range(i, min(i + 4, len(lines))):
+                        if re.search(r"\b(fn|struct)\s+\w+", lines[k]):
+                            shown = "#[verifier::external_body] " + lines[k].strip()
+                            break
+                found.append((i, c, shown))
                 break
     return found
 
